@@ -11,6 +11,7 @@ import common
 import meta
 import popgen
 import t3
+import t4
 
 
 def orders(rnd, df):
@@ -70,6 +71,7 @@ def run(tier: str) -> int:
     common.build_and_audit(r, ["C01", "C01Sim", "C01E2E", "C01Ids", "C12Cor"], leanchecker=not quick)
     rnd = common.rng("C01")
     t3.run_t3(r, 1000 * common.seed() + 1, 40 if quick else 600)
+    t4.run_t4_quick(r, common.rng("C01-T4"), quick)
     dates = popgen.DATES_QUICK if quick else popgen.DATES_2015
     for date in dates:
         for k in range(5 if quick else 25):
